@@ -41,10 +41,12 @@ partial def decodeVal (j : Json) : GoVal :=
   | "win" =>
     let base := (arr "v").map decodeVal
     let ws : List Json := match j.getObjVal? "w" with | .ok (.arr a) => a.toList | _ => []
+    let key := getS j "k"
     .slice true false (ws.map fun w =>
       let lo := ((w.getArrVal? 0).toOption.bind (·.getNat?.toOption)).getD 0
       let hi := ((w.getArrVal? 1).toOption.bind (·.getNat?.toOption)).getD 0
-      .slice true false ((base.drop lo).take (hi - lo)))
+      let win := GoVal.slice true false ((base.drop lo).take (hi - lo))
+      if key == "" then win else .map .str false [key.toUTF8.toList] [win])
   | "dec" => .dec ⟨(getS j "c").toInt?.getD 0, (getS j "e").toInt?.getD 0⟩
   | "ptr" => .ptr (getB j "nil") (match j.getObjVal? "v" with | .ok v => decodeVal v | _ => .nil)
   | "slice" => .slice (getB j "ei") (getB j "nil") ((arr "v").map decodeVal)
